@@ -71,7 +71,7 @@ class Report:
             'seed': self.seed,
             'level': self.level,
             'coverage': self.coverage,
-            'assumptions': self.assumptions,
+            'assumptions': self.assumptions or list(self.coverage.get('trusted_base', [])),
             'wall_s': round(time.time() - self.t0, 1),
             'violations': len(self.violations),
         }
